@@ -492,6 +492,7 @@ class Runner(object):
         outcome = ['ret', srepr(result)] if raised is None else ['exc', type(raised).__name__]
         o = self.summarize(op, outcome, s1)
         o['cls'] = cls
+        o['k'] = skey(k) if ok else None
         if exc_obj is not None:
             self.armed.append(i)
             self.note('c16_armed_raises')
@@ -1144,7 +1145,7 @@ def compare_obs(a, b, skip, what, prop, case, viol, until=None):
             o.pop('nlog', None)
         # counters differ by construction only through skipped ops; compare everything else
         if x != y:
-            viol.append({'property': prop, 'kind': what, 'mech': [], 'step': i, 'case': case,
+            viol.append({'property': prop, 'kind': what, 'mech': [], 'step': i, 'case': case, 'obs_pair': [x, y],
                          'msg': 'twin runs diverge at step %d (%s): %r vs %r' % (i, a[i]['op'],
                                                                                  _short(x), _short(y))})
             return
@@ -1316,6 +1317,31 @@ def gen_case_c20(rng):
             'focus': 'C20', 'fresh': [enc(x) for x in gen.gen_call(rng, sig, ['zz', 77, 'fresh'])]}
 
 
+def pickled_key_identity_mech(cfg, x, y):
+    """witness-derived: the two observations hold *different key bytes that unpickle to equal keys* (same
+    number of entries, equal decoded key sets) under picklemap with a serializer - the recorded dependence of
+    pickled keys on object identity (pickle's memo), which differs between interpreter processes"""
+    km = cfg['keymap']
+    if km['cls'] != 'picklemap' or km['type'] is None:
+        return []
+    import ast
+    import dill
+
+    def decoded(names):
+        out = []
+        for n in names:
+            b = ast.literal_eval(n)
+            out.append(repr(dill.loads(b)))
+        return sorted(out)
+    try:
+        # the diverging call itself got different key bytes in the two processes, and both decode to equal keys
+        if x.get('k') and y.get('k') and x['k'] != y['k'] and decoded([x['k']]) == decoded([y['k']]):
+            return ['picklemap-key-depends-on-object-identity']
+    except Exception:
+        pass
+    return []
+
+
 def _copy_store(src, dst):
     import shutil
     if os.path.isdir(dst):
@@ -1345,6 +1371,13 @@ def run_case_c20(case):
                 % (type(e).__name__, str(e)[:200]))
             return r, viol, cnt
         cnt['c20_roundtrips'] = 1
+        blob_path = None
+        if case.get('xproc'):
+            # the serialised function as a *different interpreter process* will find it (written now, before
+            # the original moves on)
+            blob_path = os.path.join(root, 'f.dill')
+            with open(blob_path, 'wb') as fh:
+                dill.dump(f, fh)
         if g is f or g.__wrapped__ is f.__wrapped__:
             cnt['c20_by_reference'] = 1   # would make the comparison vacuous
             return r, viol, cnt
@@ -1375,6 +1408,36 @@ def run_case_c20(case):
         v2 = []
         compare_obs(rf.obs, rg.obs, set(), 'clone-diverged', 'C20', case, v2)
         viol.extend(v2)
+        if blob_path is not None and not v2:
+            # restored in another process: no object (marker singletons, module state) is shared with the original
+            if persistent:
+                _copy_store(os.path.join(root, 'snap'), a)
+            import json, subprocess
+            from kv.common import child_env, PY
+            job = {'case': cont, 'root': a, 'pickle': blob_path, 'out': os.path.join(root, 'xproc.json')}
+            with open(os.path.join(root, 'xjob.json'), 'w') as fh:
+                json.dump(job, fh)
+            try:
+                p = subprocess.run([PY, '-m', 'kv.cachemon', os.path.join(root, 'xjob.json')], env=child_env(),
+                                   cwd=root, timeout=120, stdout=subprocess.PIPE, stderr=subprocess.STDOUT)
+                ok = p.returncode == 0 and os.path.exists(job['out'])
+            except subprocess.TimeoutExpired:
+                ok = False
+                p = None
+            if not ok:
+                bad('clone-not-restorable-in-another-process',
+                    'restoring the pickled function in a fresh interpreter failed: %s'
+                    % ((p.stdout.decode('utf-8', 'replace')[-300:]) if p is not None else 'timeout'))
+            else:
+                with open(job['out']) as fh:
+                    xobs = json.load(fh)
+                cnt['c20_cross_process_restores'] = 1
+                v3 = []
+                compare_obs(json.loads(json.dumps(rf.obs, default=repr)), xobs, set(), 'clone-in-other-process-diverged',
+                            'C20', case, v3)
+                for v in v3:
+                    v['mech'] = pickled_key_identity_mech(case['cfg'], *v['obs_pair'])
+                viol.extend(v3)
         ev = sum(1 for o in rf.obs if o and o.get('op') == 'call') and (rf.obs[-1]['info'][1] if rf.obs else 0)
         if any(o and len(o.get('mem', [])) for o in rf.obs) and case['cfg']['algo'] in BOUNDED:
             pass
@@ -1405,6 +1468,7 @@ def run_shard_c20(prop, tier, seed, shard, nshards, opts):
     while i < n_total and time.time() - t0 < budget:
         rng = gen.make_rng('cachemon', 'C20', seed, i)
         case = gen_case_c20(rng)
+        case['xproc'] = (i % 4 == 1)
         r, viol, cnt = run_case_c20(case)
         res['cases'] += 1
         for k, v in cnt.items():
@@ -1427,6 +1491,20 @@ def run_shard_c20(prop, tier, seed, shard, nshards, opts):
     return res
 
 
+def _c20_child(path):
+    import json
+    import dill
+    with open(path) as fh:
+        job = json.load(fh)
+    with open(job['pickle'], 'rb') as fh:
+        h = dill.load(fh)
+    rh = Runner(job['case'], job['root'], moncache=False, monitors=False, adopt=h)
+    rh.op_offset = 1000
+    rh.run()
+    with open(job['out'], 'w') as fh:
+        json.dump(rh.obs, fh, default=repr)
+
+
 _run_shard_generic = run_shard
 
 
@@ -1443,3 +1521,7 @@ def replay(v, prop):
     if prop == 'C20':
         return run_case_c20(v['case'])[1]
     return _replay_generic(v, prop)
+
+
+if __name__ == '__main__':
+    _c20_child(sys.argv[1])
